@@ -38,9 +38,11 @@ GEN_RULE = (
 def plan(prop, tier):
     if prop == "C01":
         return explorer_plan(
-            "c01", tier, 2500, 40000, GEN_RULE + "; C01 oracle: allocator monitor x kernel-held region registry, quarantine poison check, stack-memory check",
-            ["drop:Single:in-flight", "drop:Multi:in-flight", ["drop:TwoStep:in-flight", "drop:TwoStep:between-two-completions"], "cqe:for-dropped-op", "simk_kernel_mem_writes", "simk_kernel_mem_reads"],
-            extra_thorough=[gen_job("c01", "asan", 3000, 16, timeout=1200), gen_job("c01", "miri", 12, 16, timeout=1500)],
+            "c01", tier, 2500, 40000, GEN_RULE + "; C01 oracle: allocator monitor x kernel-held region registry, quarantine poison check, stack-memory check; plus c06mt: futures dropped on worker threads while the ring thread consumes their completions",
+            ["drop:Single:in-flight", "drop:Multi:in-flight", ["drop:TwoStep:in-flight", "drop:TwoStep:between-two-completions"], "cqe:for-dropped-op", "simk_kernel_mem_writes", "simk_kernel_mem_reads", "mt-drop:workers=2"],
+            extra_quick=[gen_job("c06mt", "native-debug", 500, 8, timeout=400)],
+            extra_thorough=[gen_job("c01", "asan", 3000, 16, timeout=1200), gen_job("c01", "miri", 12, 16, timeout=1500),
+                            gen_job("c06mt", "native-debug", 8000, 16, timeout=1800), gen_job("c06mt", "asan", 500, 16, timeout=1800), gen_job("c06free", "tsan", 60, 8, timeout=3000)],
         )
     if prop == "C02":
         return explorer_plan(
@@ -60,9 +62,11 @@ def plan(prop, tier):
         )
     if prop == "C06":
         return explorer_plan(
-            "c06", tier, 2500, 40000, GEN_RULE + "; C06 oracle: cancel requests vs drops (target, count, room), allocator exactly-once and leak ledger after teardown",
-            ["drop:Single:in-flight", "drop:Single:never-polled", "drop:Single:finished", "drop:Multi:multishot-mid-stream", ["drop:TwoStep:between-two-completions", "drop:TwoStep:in-flight"], "drop:Single:queued-not-consumed", "simk_cancels"],
-            extra_thorough=[gen_job("c06", "asan", 3000, 16, timeout=1200, lsan=True)],
+            "c06", tier, 2500, 40000, GEN_RULE + "; C06 oracle: cancel requests vs drops (target, count, room), allocator exactly-once and leak ledger after teardown; plus c06mt: baton-scheduled worker threads dropping in-flight futures while the ring thread consumes their completions (leak/double-free ledger over the whole schedule)",
+            ["drop:Single:in-flight", "drop:Single:never-polled", "drop:Single:finished", "drop:Multi:multishot-mid-stream", ["drop:TwoStep:between-two-completions", "drop:TwoStep:in-flight"], "drop:Single:queued-not-consumed", "simk_cancels", "mt-drop:workers=2", "mt-drop:workers=3"],
+            extra_quick=[gen_job("c06mt", "native-debug", 500, 8, timeout=400)],
+            extra_thorough=[gen_job("c06", "asan", 3000, 16, timeout=1200, lsan=True),
+                            gen_job("c06mt", "native-debug", 8000, 16, timeout=1800), gen_job("c06mt", "asan", 500, 16, timeout=1800), gen_job("c06free", "tsan", 60, 8, timeout=3000)],
         )
     if prop == "C09":
         return explorer_plan(
